@@ -115,6 +115,14 @@ def discharge(ob, tier, timeout, extra=()):
         r = solve.check_race(asserts, solvers=('z3', 'cvc5'), timeout=timeout)
     else:
         r = solve.check(asserts, solvers=order, timeout=timeout)
+    if r['verdict'] not in ('sat', 'unsat') and not getattr(discharge, '_no_retry', False):
+        # no answer within the budget (a loaded machine, an unlucky solver seed): one patient retry, every solver in turn,
+        # before the obligation is reported undecided - verdicts must not flip with the load
+        seq = tuple(dict.fromkeys(tuple(order) + ('z3', 'cvc5', 'z3old')))
+        r2 = solve.check(asserts, solvers=seq, timeout=timeout * 6)
+        r2['log'] = list(r['log']) + list(r2['log'])
+        if r2['verdict'] in ('sat', 'unsat'):
+            r = r2
     if r['verdict'] not in ('sat', 'unsat') and os.environ.get('VERIF_DUMP'):
         os.makedirs(os.environ['VERIF_DUMP'], exist_ok=True)
         fn = os.path.join(os.environ['VERIF_DUMP'], re.sub(r'[^A-Za-z0-9_.#-]+', '_', ob.name)[:150] + '.smt2')
@@ -128,6 +136,24 @@ def inst_hyps(ob):
     if not w:
         return list(ob.hyps)
     return [tm.instantiate_foralls(h, w) if tm.has_quantifier(h) else h for h in ob.hyps]
+
+
+def counterexample_candidates(con, ob, limit=20000):
+    """Contracts over symbolic-length sequences: the solver's model (arrays, uninterpreted kinds) is not turned into an input;
+    instead the contract's own enumeration of small concrete inputs is replayed on the real code."""
+    gen = getattr(con, 'replay_candidates', None)
+    clause = ob.meta.get('clause')
+    if gen is None or ob.kind == 'S':
+        return 'no-failing-input-found', None, None, 'no model-to-input translation for this obligation'
+    n = 0
+    for cargs in gen():
+        n += 1
+        if n > limit:
+            break
+        nat = C.native_check(con, cargs, None)
+        if nat['pre'] and (clause in nat['failed'] or (clause == 'no-exception' and 'no-exception' in nat['failed'])):
+            return 'replayed', cargs, nat, 'replayed candidate %d of the contract\'s enumeration' % n
+    return 'no-failing-input-found', None, None, '%d candidate inputs replayed, none fails the clause' % n
 
 
 def counterexample(con, ob, extra=(), tries=4):
@@ -246,7 +272,17 @@ def verify_task(payload):
                 return entry, None, None, None, listed, []
             if r2['verdict'] != 'sat':
                 return entry, None, dict(name=ob.name, reason='outside known regions: %s' % r2['verdict']), None, [], []
-        status, cargs, nat, sout = counterexample(con, ob, extra)
+        havoc = bool(ob.meta.get('loop') or ob.meta['record'].ghost.get('havoc'))
+        if getattr(con, 'replay_candidates', None) is not None or havoc:
+            status, cargs, nat, sout = counterexample_candidates(con, ob)
+        else:
+            status, cargs, nat, sout = counterexample(con, ob, extra)
+        if havoc and ob.kind != 'S' and status != 'replayed':
+            # refuted from a havocked loop state, which need not be reachable: without a concrete input on which the real
+            # code fails the clause this is a proof that no longer goes through, not a demonstrated violation
+            entry['verdict'] = 'refuted-after-havoc'
+            return entry, None, dict(name=ob.name, reason='PROOF-BROKEN clause refuted from a loop-invariant state and no candidate input '
+                                     'replays it (invariant no longer inductive or too weak for this code)', proof_broken=True), None, [], []
         if ob.kind == 'S':
             entry['verdict'] = 'refuted-supporting'
             return entry, None, dict(name=ob.name, reason='PROOF-BROKEN supporting obligation refuted (%s)' % status,
@@ -286,9 +322,35 @@ def verify_task(payload):
             if k == 'mismatch':
                 out['errors'].append('engine/CPython mismatch in %s: %s' % (cname, d))
         out['concolic'] = cc
+    # contracts over symbolic-length sequences have no concolic cross-check (their paths start from havocked states); instead
+    # the contract's own enumeration of small concrete inputs is run on the real code and every clause evaluated natively:
+    # a clause failing there is a violation with a concrete input, whatever the proof says
+    gen = getattr(con, 'replay_candidates', None)
+    if gen is not None:
+        n_c = 0
+        for cargs in gen():
+            n_c += 1
+            nat = C.native_check(con, cargs, None)
+            if nat['pre'] and nat['failed']:
+                kinds = {cl.name: cl.kind for cl in con.clauses}
+                kinds.update({cl.name: cl.kind for _, cl in con.raise_clauses})
+                bad = [f for f in nat['failed'] if kinds.get(f, 'P') == 'P']
+                if bad and not any(v.get('clause') == bad[0] and v.get('status') == 'replayed' for v in out['violations']):
+                    out['violations'].append(dict(obligation='%s/%s' % (cname, bad[0]), contract=cname, clause=bad[0], status='replayed',
+                                                  args=codec.enc(cargs), observed=codec.enc(describe_native(nat)),
+                                                  solver_output='native run of candidate input %d' % n_c, source=out['source']))
+                    break
+        out['concolic'] = dict(out['concolic'])
+        out['concolic']['native-candidates-ok'] = n_c
+        out['assumptions'] = sorted(set(out['assumptions']) | {
+            'paths through a loop invariant are not cross-checked concolically; %d small concrete inputs are run on the real code '
+            'against the same clauses instead (bounded)' % n_c})
     # canaries must be refuted on at least one path
+    # (a canary is judged only when every path stayed inside the supported subset: where a path of a changed body left it,
+    # the contract is reported undecided and the path on which the canary would have failed may be the missing one)
+    all_supported = not any(rec.outcome and rec.outcome[0] == 'unsupported' for rec in recs)
     for base, vs in out['canaries'].items():
-        if 'sat' not in vs:
+        if 'sat' not in vs and all_supported:
             out['errors'].append('canary %s was not refuted (%s): the pipeline cannot fail' % (base, vs))
     # a canary without obligation is a checker error only if the contract had a return path the engine supports:
     # when every path left the supported subset the contract is undecided (reported above), not the pipeline broken
@@ -353,15 +415,68 @@ def run_bounded(mod, prop, tier, seed, known):
     return out
 
 
+TABLE_TIMEOUT = 300.0          # seconds per table: ground facts run real code natively; a changed tree may not terminate
+MEMORY_CAP = 12 << 30          # bytes of address space per child process (a runaway loop must not take the machine down)
+
+
+def _cap_memory():
+    try:
+        import resource
+        resource.setrlimit(resource.RLIMIT_AS, (MEMORY_CAP, MEMORY_CAP))
+    except Exception:
+        pass
+
+
+def _table_child(tab, conn):
+    import pickle
+    _cap_memory()
+    try:
+        res = ('ok', tab.run())
+        pickle.dumps(res)
+    except MemoryError:
+        res = ('error', 'table ran out of memory (cap %d GiB)' % (MEMORY_CAP >> 30))
+    except Exception:
+        res = ('error', traceback.format_exc()[-1500:])
+    try:
+        conn.send(res)
+    except Exception as ex:
+        conn.send(('unpicklable', repr(ex)))
+    conn.close()
+
+
 def run_tables(mod, prop):
+    """Ground facts, each table in a child process with a time and a memory limit: a table that does not come back is
+    undecided (the check itself always terminates)."""
+    import multiprocessing as mp
     out = []
     for tab in getattr(mod, 'TABLES', []):
         if tab.prop != prop:
             continue
+        ctx = mp.get_context('fork')
+        parent, child = ctx.Pipe(duplex=False)
+        proc = ctx.Process(target=_table_child, args=(tab, child))
+        proc.start()
+        child.close()
+        res = None
         try:
-            out.extend(tab.run())
-        except Exception as ex:
-            out.append(dict(name=tab.name, ok=None, kind='P', error=traceback.format_exc()[-1500:]))
+            if parent.poll(TABLE_TIMEOUT):
+                res = parent.recv()
+        except (EOFError, OSError):
+            res = ('error', 'table process died (killed or out of memory)')
+        if res is None:
+            res = ('error', 'table did not terminate within %g s' % TABLE_TIMEOUT)
+        if proc.is_alive():
+            proc.kill()
+        proc.join()
+        if res[0] == 'unpicklable':
+            try:
+                res = ('ok', tab.run())      # it terminated in the child: run it here for the (unpicklable) result
+            except Exception:
+                res = ('error', traceback.format_exc()[-1500:])
+        if res[0] == 'ok':
+            out.extend(res[1])
+        else:
+            out.append(dict(name=tab.name, ok=None, kind='P', error=res[1]))
     return out
 
 
